@@ -1,6 +1,7 @@
 package stateful
 
 import (
+	"errors"
 	"regexp"
 	"time"
 
@@ -16,6 +17,10 @@ type operationKey struct {
 var boolTrueResultContainer = resultContainer{BoolValue: true, IsBoolValue: true}
 var boolFalseResultContainer = resultContainer{BoolValue: false, IsBoolValue: true}
 var emptyResultContainer = resultContainer{}
+
+// errDivideByZero is returned for an integer or duration division with a zero
+// divisor instead of letting the Go runtime panic.
+var errDivideByZero = errors.New("runtime error: integer divide by zero")
 
 type evaluationFnInfo struct {
 	f          evaluationFn
@@ -1034,6 +1039,10 @@ var evaluationFuncs = map[operationKey]*evaluationFnInfo{
 				return emptyResultContainer, &ErrSide{error: err, IsRight: true}
 			}
 
+			if right == 0 {
+				return emptyResultContainer, &ErrSide{error: errDivideByZero}
+			}
+
 			return resultContainer{Int64Value: left / right, IsInt64Value: true}, nil
 		},
 		returnType: ast.TInt,
@@ -1051,6 +1060,10 @@ var evaluationFuncs = map[operationKey]*evaluationFnInfo{
 
 			if right, err = rightNode.EvalInt(scope, executionState); err != nil {
 				return emptyResultContainer, &ErrSide{error: err, IsRight: true}
+			}
+
+			if right == 0 {
+				return emptyResultContainer, &ErrSide{error: errDivideByZero}
 			}
 
 			return resultContainer{Int64Value: left % right, IsInt64Value: true}, nil
@@ -1186,6 +1199,10 @@ var evaluationFuncs = map[operationKey]*evaluationFnInfo{
 				return emptyResultContainer, &ErrSide{error: err, IsRight: true}
 			}
 
+			if right == 0 {
+				return emptyResultContainer, &ErrSide{error: errDivideByZero}
+			}
+
 			return resultContainer{DurationValue: left / time.Duration(right), IsDurationValue: true}, nil
 		},
 		returnType: ast.TDuration,
@@ -1220,6 +1237,10 @@ var evaluationFuncs = map[operationKey]*evaluationFnInfo{
 
 			if right, err = rightNode.EvalDuration(scope, executionState); err != nil {
 				return emptyResultContainer, &ErrSide{error: err, IsRight: true}
+			}
+
+			if right == 0 {
+				return emptyResultContainer, &ErrSide{error: errDivideByZero}
 			}
 
 			return resultContainer{Int64Value: int64(left / right), IsInt64Value: true}, nil
